@@ -117,6 +117,7 @@ static void template_main(int req_fd, int resp_fd, const char* bdir) {
   load_builtin_crystals((bd + "/Crystals.dat").c_str());
   g_tab_hash0 = tables_hash();
   g_tab_ranges0 = tables_range_hashes();
+  tables_snapshot();
   cache_main_stack();
   // load every locale configuration once so that children find them in glibc's in-memory cache
   for (int cfg = 2; cfg >= 0; cfg--) apply_locale(cfg);
@@ -609,7 +610,7 @@ static Outcome evaluate(const Plan& p, bool count = true, bool keep_log = false)
       if (got.digest != want.digest || got.failed != want.failed) {
         Sig s;
         s.cls = "history-dependence";
-        s.site = op.kind == OK_Q ? op.fn : kOpNames[op.kind];
+        s.site = (op.kind == OK_Q || op.kind == OK_CR_MATH) ? op.fn : kOpNames[op.kind];
         char b[300];
         snprintf(b, sizeof b, "op %d (%s) digest %016llx failed=%d, but as first call in a fresh process %016llx failed=%d", op.id,
                  op_to_text(op).substr(0, 120).c_str(), (unsigned long long)got.digest, got.failed, (unsigned long long)want.digest, want.failed);
@@ -947,13 +948,13 @@ static Plan stratum_plan(const Stratum& s, uint64_t runseed) {
     o.slot = (o.id % 5) ? 1 : 0;
     int ii = 0, dd = 0, k = 0;
     for (const char* c = d.shape; *c; ++c, ++k) {
-      if (*c == 'i') { o.i[ii] = ii == 0 ? z : m; ii++; }
+      if (*c == 'i') { if (ii < 4) o.i[ii] = ii == 0 ? z : m; ii++; }
       else if (*c == 'd') {
         const char* cls = d.cls[k] ? d.cls[k] : "";
         double v = Es[r.below(sizeof Es / sizeof Es[0])];
         if (!strcmp(cls, "theta") || !strcmp(cls, "phi")) v = r.unit() * 3.14159;
         if (!strcmp(cls, "q") || !strcmp(cls, "pz")) v = r.chance(1, 8) ? -1.0 : r.unit() * 20;
-        o.d[dd++] = v;
+        if (dd < 12) o.d[dd++] = v;
       }
     }
     (void)hasm;
